@@ -145,6 +145,8 @@ PROPS = {
         "verus": [(U4, ["U4.", "C08.next"]), (U5, ["C10.", "C02.run.log", "U5.run"]), (U3, ["U3.reply"])],
     },
     "C18": {
+        # "commands are served exactly as over plaintext": after the upgrade flushes must still reach the socket
+        "also": ["C12.prepend"],
         "witness": ("w_server", ['w_c04_big', 'w_c11_handshake']),
         "title": "TLS upgrade loses no bytes and leaks no plaintext",
         "kani": [("k7_tls", None)],
